@@ -241,6 +241,8 @@ class G(object):
             de = r2(r.uniform(0.01, 0.5), 4)
         if de is not None:
             op["de"] = de
+        elif k.get("p_e_same") and r.random() < k["p_e_same"]:
+            op["e_same"] = True      # a travel move that restates the current E coordinate (legal, extrudes nothing)
         if r.random() < 0.3:
             op["f"] = r.choice([600, 1200, 1800, 3000, 6000, 9000])
         op["g"] = 0 if (de is None and r.random() < 0.5) else 1
@@ -591,6 +593,10 @@ class G(object):
             self.emit(op="settings", set={})
         elif kind == "g92e":
             self.emit(op="g92e", e=r.choice([0.0, 0.0, r2(r.uniform(0, 500), 3)]))
+        elif kind == "prime":
+            if not self.retracted:
+                # extrusion in place (nozzle priming / purge blob): an E-only move that is not a recovery
+                self.emit(op="move", g=1, de=r2(r.uniform(0.05, 3.0), 4), f=r.choice([None, 300, 1200]))
         elif kind == "mode":
             self.rel = not self.rel
             self.emit(op="mode", rel=self.rel)
@@ -671,7 +677,7 @@ class G(object):
             self.last_end_silent = (kind_ == "silent")
         self.active = False
         self.ep = False
-        if k.get("clear_after"):
+        if k.get("clear_after") and not self.last_end_silent:
             self.regions = {}
         if k.get("hook_after_end"):
             for _ in range(r.randrange(0, 3)):
@@ -682,7 +688,8 @@ class G(object):
 BASE_W = {"move": 55, "arc": 0, "retract": 10, "region_add": 3, "region_grow": 1.5, "region_shrink": 1,
           "region_refused": 1, "other": 8, "at_noop": 1.5, "terminal": 2, "pump": 1, "clock": 1, "logfail": 0.5,
           "pause": 0.7, "api_get": 0.5, "settings_same": 0.5, "g92e": 2, "mode": 0, "units": 0, "g92xyz": 0,
-          "at_switch": 0, "sd_stream_at": 0, "settings_change": 0, "script_hook": 0, "at_config": 0, "rehome": 0, "upload": 0}
+          "at_switch": 0, "sd_stream_at": 0, "settings_change": 0, "script_hook": 0, "at_config": 0, "rehome": 0, "upload": 0,
+          "prime": 0}
 
 
 MERGE_CODES = ["M204", "M205", "M73", "M900", "M220", "M221"]
@@ -783,6 +790,10 @@ def knobs(rng, profile):
         w["units"] = 1.5
     if rng.random() < 0.12:
         w["upload"] = 2          # benign concurrent traffic: a file is filtered offline while the job runs
+    if rng.random() < 0.3:
+        w["prime"] = rng.choice([1, 3])
+    if rng.random() < 0.25:
+        k["p_e_same"] = rng.choice([0.2, 0.6])
     for key in ("other", "terminal", "clock", "logfail", "pause", "region_add", "region_grow"):
         if rng.random() < 0.25:
             w[key] = 0
@@ -822,6 +833,8 @@ def gen_print_schedule(rng, profile, k=None, return_gen=False, regions=None, nid
                     # knows the earlier job is over (with shrinking allowed the restart stays without end event)
                     g.emit(op="abort", kind="cancel")
                     g.last_end_silent = False
+                    if k.get("clear_after"):
+                        g.regions = {}
                 # the judged job: drop what the earlier, unjudged jobs left of the regions it cannot avoid
                 for rid in sorted(g.regions):
                     if rng.random() < 0.5:
